@@ -286,14 +286,6 @@ Qed.
 Lemma uint64_of_small x : 0 <= x < tt64 -> uint64_of x = x.
 Proof. intros H. unfold uint64_of. rewrite Z.abs_eq by lia. apply Z.mod_small, H. Qed.
 
-Lemma byte_of_spec x n : 0 <= x -> 0 <= n < 32 ->
-  byte_of x 32 n = Z.land (Z.shiftr x (8 * (31 - n))) 255.
-Proof.
-  intros Hx Hn. unfold byte_of. replace (n >=? 32) with false by lia.
-  rewrite Z.abs_eq by lia. rewrite Z.shiftr_div_pow2 by lia.
-  change 255 with (Z.ones 8). rewrite Z.land_ones by lia.
-  replace (32 - 1 - n) with (31 - n) by lia. reflexivity.
-Qed.
 Lemma land_255_range x : 0 <= Z.land x 255 < 256.
 Proof. change 255 with (Z.ones 8). rewrite Z.land_ones by lia. apply Z.mod_pos_bound. lia. Qed.
 Lemma small_inrange k : 0 <= k < tt64 -> inrange k.
